@@ -8,7 +8,7 @@
    IdealAllowed, so RelayAbs never demands something no relay can do.                                         *)
 EXTENDS RelayAbs, TLC, Json
 
-CONSTANTS MaxLen, Sizes, Reaches, Faults
+CONSTANTS MaxLen, Sizes, Reaches, Faults, Holds
 
 VARIABLES script, done, okAll
 svars == <<vars, script, done, okAll>>
@@ -27,7 +27,7 @@ EOpen(r) ==
   /\ ~done /\ phase = "idle" /\ script = <<>>
   /\ phase' = "open" /\ want' = 1 /\ reach' = r
   /\ script' = <<[op |-> "open", reach |-> r]>>
-  /\ UNCHANGED <<dials, sentUp, gotUp, sentDown, gotDown, appClosed, tgtClosed, cleanApp, cleanTgt, appSaw, tgtSaw, fault, done, okAll>>
+  /\ UNCHANGED <<dials, sentUp, gotUp, sentDown, gotDown, appClosed, tgtClosed, cleanApp, cleanTgt, appSaw, tgtSaw, fault, lapsed, done, okAll>>
 
 EUp(c) ==
   /\ ~done /\ Len(script) < MaxLen /\ phase = "open" /\ appClosed = "no" /\ appSaw = "no"
@@ -36,7 +36,7 @@ EUp(c) ==
   /\ gotUp' = IF reach = "ok" /\ tgtClosed \in {"no", "fin"} /\ ~fault THEN sentUp' ELSE gotUp
   /\ cleanTgt' = (cleanTgt /\ tgtClosed # "close")
   /\ script' = Append(script, [op |-> "up", size |-> c])
-  /\ UNCHANGED <<phase, want, reach, sentDown, gotDown, appClosed, tgtClosed, cleanApp, appSaw, tgtSaw, fault, done, okAll>>
+  /\ UNCHANGED <<phase, want, reach, sentDown, gotDown, appClosed, tgtClosed, cleanApp, appSaw, tgtSaw, fault, lapsed, done, okAll>>
 
 EDown(c) ==
   /\ ~done /\ Len(script) < MaxLen /\ dials # <<>> /\ tgtClosed = "no" /\ tgtSaw = "no"
@@ -44,7 +44,7 @@ EDown(c) ==
   /\ gotDown' = IF appClosed \in {"no", "fin"} /\ appSaw = "no" /\ ~fault THEN sentDown' ELSE gotDown
   /\ cleanApp' = (cleanApp /\ appClosed # "close")
   /\ script' = Append(script, [op |-> "down", size |-> c])
-  /\ UNCHANGED <<phase, want, reach, dials, sentUp, gotUp, appClosed, tgtClosed, cleanTgt, appSaw, tgtSaw, fault, done, okAll>>
+  /\ UNCHANGED <<phase, want, reach, dials, sentUp, gotUp, appClosed, tgtClosed, cleanTgt, appSaw, tgtSaw, fault, lapsed, done, okAll>>
 
 ESync ==
   /\ ~done /\ Len(script) < MaxLen /\ dials # <<>> /\ appClosed = "no" /\ tgtClosed = "no"
@@ -74,6 +74,19 @@ EFault(h) ==
   /\ script' = Append(script, [op |-> "cut", how |-> h])
   /\ UNCHANGED <<done, okAll>>
 
+\* C15: one outer side has closed for good (close / reset), the other one keeps its connection open and stays silent
+\* for longer than the close grace; nothing more is scripted after that.  Both processes must have let go of the flow
+\* by then (the observer's Held), whatever the silent side does later.
+EHold ==
+  /\ ~done /\ Len(script) < MaxLen /\ dials # <<>>
+  /\ (appClosed \in {"close", "rst"}) # (tgtClosed \in {"close", "rst"})
+  /\ appClosed \in {"no", "close", "rst"} /\ tgtClosed \in {"no", "close", "rst"}
+  /\ script[Len(script)].op # "hold"
+  /\ Lapse
+  /\ script' = Append(script, [op |-> "hold"])
+  /\ UNCHANGED <<done, okAll>>
+Held == script # <<>> /\ script[Len(script)].op = "hold"
+
 \* ideal system steps that are observable ends; taken eagerly before the script goes on
 IdealTgtEnd == /\ ~done /\ dials # <<>> /\ tgtSaw = "no" /\ (appClosed # "no" \/ fault) /\ tgtClosed \in {"no", "fin"}
                /\ TgtEnd("eof") /\ UNCHANGED <<script, done, okAll>>
@@ -88,11 +101,12 @@ Finish ==
   /\ done' = TRUE /\ UNCHANGED <<script, okAll>>
 
 SNext == \/ \E r \in Reaches : EOpen(r)
-         \/ (~EndsPending /\ (\/ \E c \in Sizes : EUp(c) \/ EDown(c)
-                              \/ ESync
-                              \/ \E h \in Hows : EAppClose(h) \/ ETgtClose(h)
-                              \/ \E h \in Faults : EFault(h)
-                              \/ Finish))
+         \/ (~EndsPending /\ ~Held /\ (\/ \E c \in Sizes : EUp(c) \/ EDown(c)
+                                        \/ ESync
+                                        \/ \E h \in Hows : EAppClose(h) \/ ETgtClose(h)
+                                        \/ \E g \in Faults : EFault(g)
+                                        \/ (Holds /\ EHold)))
+         \/ (~EndsPending /\ Finish)
          \/ IdealTgtEnd \/ IdealAppEnd
 
 SSpec == SInit /\ [][SNext]_svars
